@@ -7,7 +7,13 @@
   for ℝ and for Float, NaN included); the witnesses of the losses and the normalisation of the
   group-contribution array are over ℝ.
 
-  * `…_load_save_partial`  load (save x) = x with the unsaved fields reset (`Particle.forget`):
+  LABELS.  [T-def] marks a theorem that merely restates a branch of the model's definition (it pins
+  the transcription; the tie to /repo is the correspondence run) or a non-vacuity witness.
+
+  * `…_load_save_partial`  load (save x) = x with the unsaved fields reset (`Particle.forget`)
+       (`load_save_id_partial` = the particle list; for the bent plume model `bpm_file_…` is the file
+       reader and `bpm_load_save_partial` the whole `load_sim`, whose LagElement reset of
+       integrate/t/x/y/z is an explicit exclusion: `Particle.noState`, `bpm_state_reset_on_load`):
        every solution array, every model parameter, every stored particle-definition field,
        for any number of particles / compounds / tracers / rows
   * `…_arrays_exact`       the solution arrays alone, with no hypothesis on the particles
@@ -47,6 +53,13 @@ theorem particles_load_save_partial (pt : Nat) (hpt : pt ≤ 2) (chem ucomp : Li
   rw [ofFile_plain Ta pt hpt _ (mkTable_ok _ _ _ _)]
   exact loadParticlesT_mkTable pt hpt chem ucomp ps _ (by simpa [at1, valF, ListWF] using hwf)
 
+/-- DESIGN §4 name of `particles_load_save_partial` -/
+theorem load_save_id_partial (pt : Nat) (hpt : pt ≤ 2) (chem ucomp : List String) (Ta : α)
+    (ps : List (Particle α)) (tbl : Table α)
+    (hs : saveTable pt chem ps (ps.map (·.K_T)) = some tbl) (hwf : ListWF pt chem ucomp Ta ps) :
+    loadParticles ((taFile Ta).add (tbl.toFile pt)) = (ps.map Particle.forget, chem) :=
+  particles_load_save_partial pt hpt chem ucomp Ta ps tbl hs hwf
+
 theorem sbm_load_save_partial (h : Header) (s : Sbm α) (f : File α) (ucomp : List String) (Ta : α)
     (hs : saveSbm h s = some f)
     (hK : s.K_T0 = s.particle.K_T)
@@ -71,14 +84,14 @@ theorem sbm_load_save_partial (h : Header) (s : Sbm α) (f : File α) (ucomp : L
   · rw [hp]; rfl
   · rw [hp]
 
-theorem bpm_load_save_partial (h : Header) (s : Bpm α) (f : File α) (ucomp : List String)
+theorem bpm_file_load_save_partial (h : Header) (s : Bpm α) (f : File α) (ucomp : List String)
     (hs : saveBpm h s = some f)
     (hX : s.X.length = 3)
     (hK : s.K_T0 = s.particles.map (·.K_T))
     (hwf : ListWF 2 s.chem_names ucomp s.Ta s.particles)
     (hq : ∀ row ∈ s.q, row.length = s.ns) (hlen : s.q.length = s.t.length) :
     ∃ c, s.cj.getLast? = some c ∧
-      loadBpm f = { s with particles := s.particles.map Particle.forget, cj := [c] } := by
+      loadBpmFile f = { s with particles := s.particles.map Particle.forget, cj := [c] } := by
   obtain ⟨c, tbl, hc, hst, rfl⟩ := saveBpm_eq h s f hs
   refine ⟨c, hc, ?_⟩
   have ht := saveTable_some _ _ _ _ _ hst
@@ -93,12 +106,39 @@ theorem bpm_load_save_partial (h : Header) (s : Bpm α) (f : File α) (ucomp : L
   have hx := list3 s.X hX
   rcases s with ⟨X, D, Vj, phi_0, theta_0, Sj, Tj, cj, tracers, chem_names, particles, track, dt_max, sd_max, K_T0, ns, t, q, Ta, Sa, P⟩
   simp only at hp hqq htt hx hK ⊢
-  unfold loadBpm
+  unfold loadBpmFile
   rw [hp]
   simp only [Bpm.mk.injEq]
   simp [bpmOwn, p1, File.f1, File.f2, File.i1, File.dim, File.names, File.vattrN, File.add, header, vF, vF2, vI, va,
     List.lookup, at1, valF_some, valI_some, hqq, htt, hx, hK, forget_K_T', b2i]
   cases track <;> simp
+
+/-- `load_sim` itself ends by building the local Lagrangian element from the FIRST row of the
+    solution (l.1378), which overwrites `integrate, t, x, y, z` of every particle with the state at
+    the release (`st`: what the plume kinematics give; not data movement, an input here).  So the
+    reloaded model equals the saved one in every array, parameter and stored definition field, and
+    in the particle state ONLY up to that reset: the end-of-simulation state the file holds
+    (`tp, xp, yp, zp`, `integrate`) is read and then discarded. -/
+theorem bpm_load_save_partial (h : Header) (s : Bpm α) (f : File α) (ucomp : List String) (st : List (PState α))
+    (hs : saveBpm h s = some f) (hX : s.X.length = 3) (hK : s.K_T0 = s.particles.map (·.K_T))
+    (hwf : ListWF 2 s.chem_names ucomp s.Ta s.particles)
+    (hq : ∀ row ∈ s.q, row.length = s.ns) (hlen : s.q.length = s.t.length) :
+    ∃ c, s.cj.getLast? = some c ∧
+      loadBpm st f = { s with particles := lagReset st (s.particles.map Particle.forget), cj := [c] } ∧
+      (loadBpm st f).particles.map Particle.noState = (s.particles.map Particle.forget).map Particle.noState := by
+  obtain ⟨c, hc, hl⟩ := bpm_file_load_save_partial h s f ucomp hs hX hK hwf hq hlen
+  refine ⟨c, hc, ?_, ?_⟩
+  · simp only [loadBpm, hl]
+  · simp only [loadBpm, hl, lagReset_noState]
+
+/-- [T-def] hence the particle state of a reloaded bent-plume model is NOT the saved one: a
+    particle that had left the plume (`integrate = false`, position of the exit) comes back as
+    inside the plume at the release point -/
+theorem bpm_state_reset_on_load (p : Particle α) (x : PState α) (hx : x.integrate ≠ p.integrate) :
+    lagReset [x] [p] ≠ [p] := by
+  intro h
+  simp only [lagReset, List.cons.injEq, and_true] at h
+  exact hx (by rw [← h])
 
 theorem spm_load_save_partial (h : Header) (s : Spm α) (f : File α) (ucomp : List String)
     (hs : saveSpm h s = some f)
@@ -128,6 +168,7 @@ theorem spm_load_save_partial (h : Header) (s : Spm α) (f : File α) (ucomp : L
 
 /-! ### the solution arrays alone: no hypothesis on the particles -/
 
+/-- restates `Lemmas.C18.sbm_arrays` -/
 theorem sbm_arrays_exact (h : Header) (s : Sbm α) (f : File α) (hs : saveSbm h s = some f)
     (hy : ∀ row ∈ s.y, row.length = (s.y.headD []).length) (hlen : s.y.length = s.t.length) :
     (loadSbm f).t = s.t ∧ (loadSbm f).y = s.y ∧ (loadSbm f).K_T0 = s.K_T0 ∧ (loadSbm f).delta_t = s.delta_t :=
@@ -135,13 +176,13 @@ theorem sbm_arrays_exact (h : Header) (s : Sbm α) (f : File α) (hs : saveSbm h
 
 theorem bpm_arrays_exact (h : Header) (s : Bpm α) (f : File α) (hs : saveBpm h s = some f)
     (hq : ∀ row ∈ s.q, row.length = s.ns) (hlen : s.q.length = s.t.length) :
-    (loadBpm f).t = s.t ∧ (loadBpm f).q = s.q := by
+    (loadBpmFile f).t = s.t ∧ (loadBpmFile f).q = s.q := by
   obtain ⟨c, tbl, hc, hst, rfl⟩ := saveBpm_eq h s f hs
   have hqq := tab_roundtrip s.q s.t.length s.t.length s.ns hlen (Nat.le_refl _) hq
   have htt := col0_roundtrip s.t
   rcases s with ⟨X, D, Vj, phi_0, theta_0, Sj, Tj, cj, tracers, chem_names, particles, track, dt_max, sd_max, K_T0, ns, t, q, Ta, Sa, P⟩
   simp only at hqq htt ⊢
-  unfold loadBpm
+  unfold loadBpmFile
   simp [bpmOwn, p1, File.f1, File.f2, File.i1, File.dim, File.names, File.vattrN, File.add, header, vF, vF2, vI, va,
     List.lookup, hqq, htt]
 
@@ -168,7 +209,7 @@ theorem particles_resave_fixpoint (pt : Nat) (hpt : pt ≤ 2) (chem ucomp : List
     saveTable pt r.2 r.1 (r.1.map (·.K_T)) = some tbl := by
   simp only [particles_load_save_partial pt hpt chem ucomp Ta ps tbl hs hwf, forget_K_T, saveTable_forget, hs]
 
-/-- re-saving a reloaded single-particle simulation RAISES in the code as written (the reader
+/-- [T-def] re-saving a reloaded single-particle simulation RAISES in the code as written (the reader
     leaves `K_T0` as a 0-d array, the particle writer indexes it): the fixpoint is false here -/
 theorem sbm_resave_raises (h : Header) (f : File α) : saveSbm h (loadSbm f) = none := by
   simp [saveSbm, loadSbm]
@@ -186,14 +227,26 @@ theorem sbm_resave_fixpoint_partial (h : Header) (s : Sbm α) (f : File α) (uco
   simp only [saveSbm, this, h0d]
   rfl
 
-theorem bpm_resave_fixpoint (h : Header) (s : Bpm α) (f : File α) (ucomp : List String)
+theorem bpm_file_resave_fixpoint (h : Header) (s : Bpm α) (f : File α) (ucomp : List String)
     (hs : saveBpm h s = some f) (hX : s.X.length = 3) (hK : s.K_T0 = s.particles.map (·.K_T))
     (hwf : ListWF 2 s.chem_names ucomp s.Ta s.particles)
     (hq : ∀ row ∈ s.q, row.length = s.ns) (hlen : s.q.length = s.t.length) :
-    saveBpm h (loadBpm f) = some f := by
-  obtain ⟨c, hc, hl⟩ := bpm_load_save_partial h s f ucomp hs hX hK hwf hq hlen
+    saveBpm h (loadBpmFile f) = some f := by
+  obtain ⟨c, hc, hl⟩ := bpm_file_load_save_partial h s f ucomp hs hX hK hwf hq hlen
   rw [hl, ← hs]
   simp only [saveBpm, hc, List.getLast?_singleton, saveTable_forget]
+  rfl
+
+/-- re-saving what `load_sim` returns writes the file of the saved model with the particle state
+    replaced by the reset one (columns integrate, tp, xp, yp, zp); everything else is a fixpoint -/
+theorem bpm_resave_after_load (h : Header) (s : Bpm α) (f : File α) (ucomp : List String) (st : List (PState α))
+    (hs : saveBpm h s = some f) (hX : s.X.length = 3) (hK : s.K_T0 = s.particles.map (·.K_T))
+    (hwf : ListWF 2 s.chem_names ucomp s.Ta s.particles)
+    (hq : ∀ row ∈ s.q, row.length = s.ns) (hlen : s.q.length = s.t.length) :
+    saveBpm h (loadBpm st f) = saveBpm h { s with particles := lagReset st s.particles } := by
+  obtain ⟨c, hc, hl, _⟩ := bpm_load_save_partial h s f ucomp st hs hX hK hwf hq hlen
+  rw [hl]
+  simp only [saveBpm, hc, List.getLast?_singleton, lagReset_forget, saveTable_forget]
   rfl
 
 theorem spm_resave_fixpoint (h : Header) (s : Spm α) (f : File α) (ucomp : List String)
@@ -224,6 +277,7 @@ theorem save_eq_of_forget_eq (pt : Nat) (chem : List String) (ps qs : List (Part
     saveTable pt chem ps K = saveTable pt chem qs K := by
   rw [← saveTable_forget pt chem ps K, ← saveTable_forget pt chem qs K, h]
 
+/-- [T-def] `cj[0] = self.cj` with an empty array: IndexError -/
 theorem bpm_save_raises_without_tracers (h : Header) (s : Bpm α) (hc : s.cj = []) : saveBpm h s = none := by
   simp [saveBpm, hc]
 
@@ -321,16 +375,17 @@ theorem normGroups_idempotent (nc : Nat) (g : List (List ℝ)) (hnc : 0 < nc) (h
 
 /-! ### the full statement is false for the code as written: witnesses -/
 
-/-- the witness particle is well formed as a particle of any of the three classes
+/-- [T-def] (non-vacuity) the witness particle is well formed as a particle of any of the three classes
     (ambient temperature 280 K, particle 290 K: heat transfer stays on) -/
 theorem witness_particle_wf (pt : Nat) : ParticleWF pt ["methane", "ethane"] ["methane"] (280 : ℝ) wP := by
   refine ⟨?_, ?_, ?_, ?_⟩
-  · show FluidWF _ _ wFluid
-    refine ⟨rfl, Or.inr rfl, by simp [wFluid, wUser], ?_, by decide, ?_⟩
+  · show FluidWF _ _ wFluid ∧ _
+    refine ⟨⟨rfl, Or.inr rfl, by simp [wFluid, wUser], ?_, by decide, ?_, ?_, by decide, by simp [wFluid, zeros]⟩, rfl⟩
     · intro u hu
       simp only [wFluid, List.mem_singleton] at hu
       subst hu; rfl
     · exact normGroups_zero 2
+    · intro h; exact absurd h (by decide)
   · constructor <;> intro _ <;> simp [wP, wBase, Num.real_zero]
   · intro e he; cases he
   · intro _ hc
@@ -338,6 +393,7 @@ theorem witness_particle_wf (pt : Nat) : ParticleWF pt ["methane", "ethane"] ["m
     simp only [wP, wBase, Num.real_abs, Num.real_ofSci] at this
     norm_num at this
 
+/-- [T-def] (non-vacuity) -/
 theorem witness_insoluble_wf (pt : Nat) : ParticleWF pt ["methane", "ethane"] ["methane"] (280 : ℝ) wI := by
   refine ⟨rfl, ?_, ?_, ?_⟩
   · constructor <;> intro _ <;> simp [wI, wBase, Num.real_zero]
@@ -347,14 +403,16 @@ theorem witness_insoluble_wf (pt : Nat) : ParticleWF pt ["methane", "ethane"] ["
     simp only [wI, wBase, Num.real_abs, Num.real_ofSci] at this
     norm_num at this
 
+/-- [T-def] (non-vacuity) -/
 theorem witness_wf : ListWF 0 ["methane", "ethane"] ["methane"] (280 : ℝ) [wP] := by
   intro p hp
   rw [List.mem_singleton.mp hp]
   exact witness_particle_wf 0
 
+/-- [T-def] (non-vacuity) the writer accepts the witness -/
 theorem witness_saves : saveTable 0 ["methane", "ethane"] [wP] ([wP].map (·.K_T)) =
     some (mkTable 0 ["methane", "ethane"] [wP] ([wP].map (·.K_T))) := by
-  simp [saveTable, saveOk, m0Ok, userOk, userComposition, nchemsOf, wP, wBase, wFluid, wUser, findUser]
+  simp [saveTable, saveOk, m0Ok, userOk, userComposition, nchemsOf, wP, wBase, wFluid, wUser, findUser, zeros]
 
 /-- `∀ x, load (save x) = x` does not hold: the witness is a valid single particle whose file
     loads to a different particle (lag_time, delta and the optional user-data keys are gone) -/
@@ -412,6 +470,19 @@ theorem insoluble_bio_fp_type_not_saved :
   · intro pt chem K
     exact save_eq_of_forget_eq pt chem _ _ K rfl
 
+/-- composition: the writer never looks at a soluble particle's OWN composition (it writes the
+    `chem_names` argument once, for all): two particles whose compounds are listed in different
+    orders give the same file, and the reader labels both with `chem_names` — the masses of the
+    second are attached to the wrong compounds.  (A particle with fewer compounds than `chem_names`
+    has its single mass repeated: `bcast`.) -/
+theorem composition_not_saved :
+    ∃ p q : Particle ℝ, (∃ f g, p.dbm = .fluid f ∧ q.dbm = .fluid g ∧ f.composition ≠ g.composition) ∧
+      ∀ pt chem K, saveTable pt chem [p] K = saveTable pt chem [q] K := by
+  refine ⟨wP, wBase (.fluid { wFluid with composition := ["ethane", "methane"] }) [1e-6, 1e-6] false, ?_, ?_⟩
+  · exact ⟨wFluid, { wFluid with composition := ["ethane", "methane"] }, rfl, rfl, by simp [wFluid]⟩
+  · intro pt chem K
+    rfl
+
 /-- tracer concentrations: only the last element of `cj` reaches the file -/
 theorem cj_not_saved :
     ∃ s s' : Bpm ℝ, s.cj ≠ s'.cj ∧ s.tracers = s'.tracers ∧ ∀ h, saveBpm h s = saveBpm h s' := by
@@ -431,7 +502,7 @@ noncomputable example : ∃ (s : Sbm ℝ), (saveSbm ⟨"t", "prf.nc", "i", "c", 
     (∀ row ∈ s.y, row.length = (s.y.headD []).length) ∧ s.y.length = s.t.length ∧ s.t.length = 2 := by
   refine ⟨⟨wP, ["methane", "ethane"], 1, false, 10, [0, 10], [[0, 0, 300, 1e-6, 1e-6, 5], [0, 0, 290, 9e-7, 9e-7, 4]]⟩, ?_,
     rfl, witness_particle_wf 0, by simp, rfl, rfl⟩
-  simp [saveSbm, saveTable, saveOk, m0Ok, userOk, userComposition, nchemsOf, wP, wBase, wFluid, wUser, findUser]
+  simp [saveSbm, saveTable, saveOk, m0Ok, userOk, userComposition, nchemsOf, wP, wBase, wFluid, wUser, findUser, zeros]
 
 /-- a bent-plume simulation with a soluble and an inert particle, two tracers, three rows -/
 noncomputable example : ∃ (s : Bpm ℝ), s.X.length = 3 ∧ s.K_T0 = s.particles.map (·.K_T) ∧
@@ -445,7 +516,7 @@ noncomputable example : ∃ (s : Bpm ℝ), s.X.length = 3 ∧ s.K_T0 = s.particl
     rcases hp with rfl | rfl
     · exact witness_particle_wf 2
     · exact witness_insoluble_wf 2
-  · simp [saveBpm, saveTable, saveOk, m0Ok, userOk, userComposition, nchemsOf, wP, wI, wBase, wFluid, wUser, findUser]
+  · simp [saveBpm, saveTable, saveOk, m0Ok, userOk, userComposition, nchemsOf, wP, wI, wBase, wFluid, wUser, findUser, zeros]
 
 /-- a stratified-plume simulation: inner and outer solutions of different lengths -/
 noncomputable example : ∃ (s : Spm ℝ), s.K_T0 = s.particles.map (·.K_T) ∧
@@ -460,7 +531,7 @@ noncomputable example : ∃ (s : Spm ℝ), s.K_T0 = s.particles.map (·.K_T) ∧
     rcases hp with rfl | rfl
     · exact witness_particle_wf 1
     · exact witness_insoluble_wf 1
-  · simp [saveSpm, saveTable, saveOk, m0Ok, userOk, userComposition, nchemsOf, wP, wI, wBase, wFluid, wUser, findUser]
+  · simp [saveSpm, saveTable, saveOk, m0Ok, userOk, userComposition, nchemsOf, wP, wI, wBase, wFluid, wUser, findUser, zeros]
 
 /-- group-contribution arrays: a normalised 2 × 15 array satisfies `normGroups_stable` -/
 example : ∀ r ∈ ([[0, 0, 0, 0, 1, 0, 0, 0, 0, 0, 0, 0, 0, 0, 0], [0.5, 0.25, 0.25, 0, 0, 0, 0, 0, 0, 0, 0, 0, 0, 0, 0]] :
